@@ -66,6 +66,7 @@ impl BootInformationHeader {
 
 impl Header for BootInformationHeader {
     fn payload_len(&self) -> usize {
+        assert!(self.total_size as usize >= mem::size_of::<Self>());
         self.total_size as usize - mem::size_of::<Self>()
     }
 
@@ -104,6 +105,10 @@ impl<'a> BootInformation<'a> {
     ///   program may observe unsynchronized mutation.
     pub unsafe fn load(ptr: *const BootInformationHeader) -> Result<Self, LoadError> {
         let ptr = NonNull::new(ptr.cast_mut()).ok_or(LoadError::Memory(MemoryError::Null))?;
+        // A total size that does not even cover the header can never be valid.
+        if (unsafe { ptr.as_ref() }.total_size() as usize) < mem::size_of::<BootInformationHeader>() {
+            return Err(LoadError::Memory(MemoryError::ShorterThanHeader));
+        }
         let inner = DynSizedStructure::ref_from_ptr(ptr).map_err(LoadError::Memory)?;
 
         let this = Self(inner);
